@@ -163,6 +163,7 @@ type Opts struct {
 	Overwrite bool
 	KeepGoing bool
 	Out       io.Writer
+	Random    io.Reader // randomness handed to the command (default crypto/rand)
 }
 
 // Context builds the keys/output context of one command with every component wrapped by f.
@@ -187,7 +188,11 @@ func (a *Assembly) Context(f *doubles.FCtl, o Opts) (context.Context, error) {
 	default:
 		ca = &gcsca.CertificateAuthority{Storage: &doubles.FStore{Inner: a.rawStore(), F: f}, PrivateBucket: Bucket, RootPath: RootPath, SigningCertDirInGCS: CertDir}
 	}
-	kc := &keys.Context{CA: &doubles.FCA{Inner: ca, F: f}, Manager: &doubles.FManager{Inner: mgr, F: f}, Signer: &doubles.FSigner{Inner: s, F: f}, Random: crand.Reader}
+	var rnd io.Reader = crand.Reader
+	if o.Random != nil {
+		rnd = o.Random
+	}
+	kc := &keys.Context{CA: &doubles.FCA{Inner: ca, F: f}, Manager: &doubles.FManager{Inner: mgr, F: f}, Signer: &doubles.FSigner{Inner: s, F: f}, Random: rnd}
 	oo := &output.Options{Quiet: o.Out == nil, Overwrite: o.Overwrite, KeepGoing: o.KeepGoing, Out: o.Out}
 	return output.NewContext(keys.NewContext(context.Background(), kc), oo), nil
 }
